@@ -381,7 +381,7 @@ def stmtBody (k : Callees) (c : Ctx) (env : Env) (s : Stmt) : Res (Out × Env) :
   | .dump _ args =>
     match k.exprs c env args with
     | .ok vs => .ok ({ text := vs.flatMap fun v => dumpHtmlPre ++ v.dump 0 ++ dumpHtmlPost }, env)
-    | .err _ l _ => .err "ModelUnsupported" l [b "dump of an error"]
+    | .err a l as => .err a l as
     | .panic w => .panic w
     | .oof => .oof
   | .brk _ => .ok ({ brk := true }, env)
